@@ -40,6 +40,8 @@ void h_set_case(const char *fmt, ...) {
 static void on_fault(int sig) {
     static const char pfx[] = "X FAULT ";
     const char *kind = sig == SIGALRM ? "watchdog " : sig == SIGABRT ? "abort " : "signal ";
+    fflush(stdout);                 /* complete lines produced so far; a partial one is dropped by the driver */
+    (void) !write(1, "\n", 1);
     (void) !write(1, pfx, sizeof pfx - 1);
     (void) !write(1, kind, strlen(kind));
     (void) !write(1, h_current_case, strlen(h_current_case));
@@ -73,6 +75,7 @@ int main(int argc, char **argv) {
     else if (strcmp(dom, "regs") == 0) dom_regs();
     else if (strcmp(dom, "heap") == 0) dom_heap();
     else if (strcmp(dom, "lexer") == 0) dom_lexer();
+    else if (strcmp(dom, "match") == 0) dom_match();
     else { fprintf(stderr, "unknown domain %s\n", dom); return 2; }
     fflush(stdout);
     return 0;
